@@ -14,11 +14,11 @@ Lemma assoc_not_stuck sess me nd a :
   parked_ok a = true.
 Proof.
   intros Hinv Hfin Hcl Hbuf Hcap Hblk.
-  destruct a as [st de on sh tm hb so ib ta ha hr rd se ht fs].
+  destruct a as [st de on sh tm hb so ib ta ha hr hm ins rd se ht fs].
   destruct nd as [cx pc dn ls mp ex bu mn np nn cr en th sp pe].
   destruct pc as [pcap pbuf pcl]. destruct tm as [tcap tbuf tcl]. destruct sh as [scap sbuf scl].
   destruct hb as [hcap hbuf hcl].
-  destruct Hinv as (Hrd & Hsel & Hhb & Hfst & Hd & (Ht1 & Ht2 & Ht3) & (Hhb1 & _) & _).
+  destruct Hinv as (Hrd & Hsel & Hhb & Hfst & Hd & (Ht1 & Ht2 & Ht3) & (Hhb1 & _) & _ & _ & (Hrd1 & _)).
   cbn in *. subst pcl pbuf tcl tcap.
   assert (Hc : Nat.ltb 0 pcap = true) by (apply Nat.ltb_lt; lia).
   pose proof (Hblk RRd 0 eq_refl ltac:(lia)) as Brd0.
@@ -37,8 +37,12 @@ Proof.
     destruct Hhb as [[_ Hx]|(-> & _ & Hh)]; [discriminate|].
     unfold code_len in *; cbn in *.
     assert (Grd : match rst with TRunning => false | _ => true end || Nat.eqb rpc 0 && true = true).
-    { destruct rst; try reflexivity. destruct rpc as [|[|[|[|p]]]]; try lia; cbn in *; try reflexivity; try discriminate.
-      destruct Ht3 as [->|[_ Hx]]; [|discriminate]. cbn in Brd0. discriminate. }
+    { unfold Data in Hd; cbn in Hd. destruct Hd as (_ & _ & Hhm). subst hm.
+      destruct rst; try reflexivity. destruct rpc as [|[|[|[|[|p]]]]]; try lia; cbn in *; try reflexivity; try discriminate.
+      - specialize (Hrd1 eq_refl eq_refl eq_refl). destruct ib; [congruence|]. cbn in Brd0.
+        destruct scl; [discriminate|]. destruct d; try discriminate; cbn in Brd0;
+          repeat match goal with H : context [if ?c then _ else _] |- _ => destruct c end; discriminate.
+      - destruct Ht3 as [->|[_ Hx]]; [|discriminate]. cbn in Brd0. discriminate. }
     assert (Gsel : match sst with TRunning => false | _ => true end || Nat.eqb spc 0 && true = true).
     { destruct sst; try reflexivity. destruct spc as [|[|[|p]]]; try lia; cbn in *; try reflexivity; discriminate. }
     assert (Ghb : match hst with TRunning => false | _ => true end || Nat.eqb hpc 1 && true = true).
@@ -49,28 +53,29 @@ Proof.
     exfalso. unfold Data in Hd; cbn in Hd. destruct Hd as (Hr0 & Hrun & _ & Hb). unfold Body in Hb.
     destruct r0; try discriminate Hr0; cbn in *.
     + destruct Hrd as [[-> _]|(_ & Hx & _)]; [|congruence]. subst rst.
-      do 8 (try destruct rpc as [|rpc]); cbn in *; try (exfalso; exact Hb);
+      do 9 (try destruct rpc as [|rpc]); cbn in *; try (exfalso; exact Hb);
         repeat match goal with H : _ /\ _ |- _ => destruct H | H : exists _, _ |- _ => destruct H end;
-        subst; cbn in *; try rewrite Hc in *; try (destruct hr; discriminate); discriminate.
+        unfold accounted in *; subst; cbn in *; try rewrite Hc in *; try (destruct hr; discriminate); discriminate.
     + destruct Hsel as [[-> _]|(_ & Hx & _)]; [|congruence]. subst sst.
-      do 8 (try destruct spc as [|spc]); cbn in *; try (exfalso; exact Hb);
+      do 9 (try destruct spc as [|spc]); cbn in *; try (exfalso; exact Hb);
         repeat match goal with H : _ /\ _ |- _ => destruct H | H : exists _, _ |- _ => destruct H end;
-        subst; cbn in *; try rewrite Hc in *; try (destruct hr; discriminate); discriminate.
+        unfold accounted in *; subst; cbn in *; try rewrite Hc in *; try (destruct hr; discriminate); discriminate.
     + destruct Hhb as [[-> _]|(_ & Hx & _)]; [|congruence]. subst hst.
-      do 8 (try destruct hpc as [|hpc]); cbn in *; try (exfalso; exact Hb);
+      do 9 (try destruct hpc as [|hpc]); cbn in *; try (exfalso; exact Hb);
         repeat match goal with H : _ /\ _ |- _ => destruct H | H : exists _, _ |- _ => destruct H end;
-        subst; cbn in *; try rewrite Hc in *; try (destruct hr; discriminate); discriminate.
+        unfold accounted in *; subst; cbn in *; try rewrite Hc in *; try (destruct hr; discriminate); discriminate.
     + discriminate Hrun.
   - (* ended association: every thread that still runs can move *)
-    unfold Data in Hd; cbn in Hd. destruct Hd as (_ & _ & Hs1 & Hs2 & Hs3). unfold hb_cancelled in Hs2. cbn in Hs2.
-    subst scl so.
+    unfold Data in Hd; cbn in Hd. destruct Hd as (_ & _ & Hs1 & Hs2 & Hs3 & Hs4). unfold hb_cancelled in Hs2. cbn in Hs2.
+    subst scl so hm.
     destruct Hrd as [[_ Hx]|(-> & _ & Hr)]; [discriminate|].
     destruct Hsel as [[_ Hx]|(-> & _ & Hs)]; [discriminate|].
     destruct Hhb as [[_ Hx]|(-> & _ & Hh)]; [discriminate|].
     unfold code_len in *; cbn in *.
     assert (Grd : match rst with TRunning => false | _ => true end = true).
-    { destruct rst; try reflexivity. destruct rpc as [|[|[|[|p]]]]; try lia; cbn in *; try discriminate.
-      destruct Ht3 as [->|[_ Hx]]; [|discriminate]. cbn in Brd0. discriminate. }
+    { destruct rst; try reflexivity. destruct rpc as [|[|[|[|[|p]]]]]; try lia; cbn in *; try discriminate.
+      - specialize (Hrd1 eq_refl eq_refl eq_refl). destruct ib; [congruence|]. cbn in Brd0. discriminate.
+      - destruct Ht3 as [->|[_ Hx]]; [|discriminate]. cbn in Brd0. discriminate. }
     assert (Gsel : match sst with TRunning => false | _ => true end = true).
     { destruct sst; try reflexivity. destruct spc as [|[|[|p]]]; try lia; cbn in *; try discriminate.
       unfold ch_recv in Bsel2. cbn in Bsel2. destruct sbuf; discriminate. }
